@@ -45,6 +45,7 @@ ASSUMPTIONS = [
     "before must be a prefix of the reference framing of the bytes delivered so far",
     "cut offsets are exhaustive per enumerated workload; workloads are sampled",
 ]
+DEGRADED_PROBES = ("trim_knob_unavailable", "clock_seam_unavailable")
 EXPECTED_PROBES = ("eof_at_boundary", "eof_in_prefix", "eof_in_header", "eof_in_body", "empty_source", "sock_fin",
                    "sock_rst", "sock_stall_timeout", "disk_eio", "garbage_bytes", "trim_taken_before_cut", "huge_packet", "non_seekable_file", "genuine_20MB_stream")
 ENUM_LIMIT = 160
@@ -300,6 +301,8 @@ def run(ch, render=False):
             trim.__enter__()
             if trim.active and any(s_ > knob for (s_, _k, _e) in layout[1:] if s_ < cut):
                 w.probe("trim_taken_before_cut")
+            if knob is not None and not trim.active:
+                w.probe("trim_knob_unavailable")
             gen = None
             try:
                 # creation is inside the try as well: a library whose set-up runs eagerly may raise here already
